@@ -26,6 +26,9 @@ const REVISION_OFFSET: usize = SIGNATURE_LENGTH; // 10
 const FLAT_THRESHOLD: usize = 16 * 1024; // 16 KiB
 /// Maximum number of frames a `FrameBatch` (one logical multipart message) can hold.
 const MAX_FRAMES_PER_MESSAGE: usize = 255;
+/// Handshake frames (security tokens, READY, the ZMTP/2.0 identity frame) are not application messages:
+/// a MAXMSGSIZE smaller than this must not make the handshake itself impossible.
+const HANDSHAKE_FRAME_LIMIT: i64 = 8 * 1024;
 /// Greeting byte index of the ZMTP/2.0 socket-type code.
 const V2_SOCKET_TYPE_OFFSET: usize = SIGNATURE_LENGTH + 1; // 11
 /// Total length of a ZMTP/2.0 greeting header: signature + revision + socket-type.
@@ -97,7 +100,12 @@ impl ZmtpEngine {
       v2_identity_sent: false,
       v2_peer_socket_type: None,
       security_mechanism: Box::new(NullMechanism),
-      framer: Box::new(NullFramer::new(max_msg_size, sndbatch_count, sndbatch_bytes_physical)),
+      // Until the data phase starts, frames are bounded by the handshake limit (or MAXMSGSIZE if larger).
+      framer: Box::new(NullFramer::new(
+        handshake_frame_limit(max_msg_size),
+        sndbatch_count,
+        sndbatch_bytes_physical,
+      )),
       pending_framer: None,
       last_activity_time: Instant::now(),
       last_ping_sent_time: None,
@@ -682,6 +690,12 @@ impl ZmtpEngine {
       Some(Blob::from(id_bytes.to_vec()))
     };
 
+    // ZMTP/2.0 has no security mechanism handing over a framer: enter the data phase with MAXMSGSIZE in force.
+    self.framer = Box::new(NullFramer::new(
+      self.config.max_msg_size,
+      self.config.sndbatch_count,
+      self.config.sndbatch_bytes_physical,
+    ));
     self.phase = ZmtpPhase::Data;
     self.last_activity_time = Instant::now();
 
@@ -887,6 +901,15 @@ fn socket_types_compatible(own: &str, peer: &str) -> bool {
       | ("ROUTER", "ROUTER")
       | ("PAIR", "PAIR")
   )
+}
+
+/// Frame-size limit in force before the data phase: MAXMSGSIZE, but never below `HANDSHAKE_FRAME_LIMIT`.
+fn handshake_frame_limit(max_msg_size: i64) -> i64 {
+  if max_msg_size < 0 {
+    -1
+  } else {
+    max_msg_size.max(HANDSHAKE_FRAME_LIMIT)
+  }
 }
 
 fn local_mechanism_name_bytes(config: &ZmtpEngineConfig) -> &'static [u8; MECHANISM_LENGTH] {
